@@ -123,6 +123,11 @@ def run_self_detection(outcome, tier, seed):
                     continue
                 plans.append((v, to, 1, len(reqs)))
                 reqs.append({"id": len(reqs), "to": to, "calls": [{"input": shared.hx(tj), "from": "json", "mode": "slice"}]})
+    # documents that only exist as text: repeated keys (the writer must still produce a well-formed document of its format)
+    for raw in (b'{"a":1,"b":2,"a":3}', b'[{"k":true,"k":false},"x"]', b'{"a":{"b":1,"b":2},"c":[1,2]}'):
+        for to in ("json", "yaml", "msgpack"):
+            plans.append((raw.decode(), to, 1, len(reqs)))
+            reqs.append({"id": len(reqs), "to": to, "calls": [{"input": shared.hx(raw), "from": "json", "mode": "slice"}]})
     resps = common.harness_batch(reqs)
     # stage 2: feed it back with and without the format named
     reqs2, plans2 = [], []
